@@ -216,50 +216,98 @@ def root_defaults(ctx):
     ctx.covered("root option defaults, Root::new, per-root reset in parse_roots", n, distinct_keys=list(want) + ["Root::new", "comma", "push", "binding"])
 
 
+def _expr_dict(interp, **kw):
+    d = {"left": interp.NONE, "arithmetic_op": interp.NONE, "logical_op": interp.NONE, "op": interp.NONE, "right": interp.NONE, "minus": False,
+         "field": interp.NONE, "function": interp.NONE, "args": interp.NONE, "val": interp.NONE}
+    d.update(kw)
+    return d
+
+
 def buffering_predicates(ctx):
-    """is_buffered = ordered or aggregate; the recursive expression predicates look at every child"""
+    """is_buffered = ordered or aggregate; the recursive expression predicates look at every child.  The predicates are
+    evaluated (finite interpreter, crate calls interpreted) on queries whose select list holds an aggregate at the root, in
+    the left or right operand, or among the arguments of an expression, with and without ORDER BY keys."""
+    import interp
+    some = interp.some
+    E = lambda **kw: _expr_dict(interp, **kw)
+    agg = lambda: E(function=some(interp.V("Function::Max")), left=some(E(field=some(interp.V("Field::Size")))))
+    plain = lambda: E(field=some(interp.V("Field::Name")))
+    fn_plain = lambda: E(function=some(interp.V("Function::Lower")), left=some(plain()))
+    shapes = {
+        "plain": (plain(), False), "function": (fn_plain(), False), "aggregate": (agg(), True),
+        "aggregate-left": (E(left=some(agg()), arithmetic_op=some(interp.V("ArithmeticOp::Add")), right=some(E(val=some("1")))), True),
+        "aggregate-right": (E(left=some(E(val=some("1"))), arithmetic_op=some(interp.V("ArithmeticOp::Add")), right=some(agg())), True),
+        "aggregate-arg": (E(function=some(interp.V("Function::Concat")), left=some(plain()), args=some([plain(), agg()])), True),
+        "aggregate-inner": (E(function=some(interp.V("Function::Lower")), left=some(E(left=some(plain()), arithmetic_op=some(interp.V("ArithmeticOp::Add")), right=some(agg())))), True),
+    }
     n = 0
-    ib = ctx.anchor_hir("searcher::Searcher::is_buffered")
-    r = render(peel_result(ib))
-    ok = sorted(x.strip("() ") for x in r.strip("()").split("||")) == ["self.has_aggregate_column", "self.has_ordering"]
-    n += 1
-    ctx.obligation(ok)
-    if not ok:
-        ctx.violation("buffering/is_buffered", ctx.where("searcher::Searcher::is_buffered"), "rows must be buffered exactly when the query is ordered or aggregates; found `%s`" % r)
-    for fn, body in (("searcher::Searcher::has_ordering", "self.query.is_ordered()"), ("searcher::Searcher::has_aggregate_column", "self.query.has_aggregate_column()"),
-                     ("query::Query::is_ordered", "!self.ordering_fields.is_empty()")):
+    name = "searcher::Searcher::is_buffered"
+    ib = ctx.anchor_hir(name)
+    ps = ctx.prog.fns[name]["params"]
+    bad = None
+    for ordered in (False, True):
+        for nm, (ex, is_agg) in shapes.items():
+            for pos in (0, 1):
+                fields = [plain(), ex] if pos else [ex, plain()]
+                q = {"fields": fields, "ordering_fields": [plain()] if ordered else [], "ordering_asc": [True] if ordered else [], "grouping_fields": [],
+                     "roots": [], "expr": interp.NONE, "limit": 0}
+                try:
+                    got = interp.Interp(prog=ctx.prog, max_steps=20000).run(ib, {ps[0]["id"]: {"query": q}})
+                except interp.Undecided as e:
+                    bad = ("unreadable", "cannot evaluate is_buffered: %s" % e)
+                    break
+                n += 1
+                want = ordered or is_agg
+                if got != want and bad is None:
+                    bad = ("is_buffered" if nm in ("plain", "function", "aggregate") else "has_aggregate_function",
+                           "rows must be buffered exactly when the query is ordered or aggregates: for a query %s ORDER BY whose select list holds "
+                           "an expression of shape `%s` is_buffered is %s" % ("with" if ordered else "without", nm, got))
+            if bad and bad[0] == "unreadable":
+                break
+        if bad and bad[0] == "unreadable":
+            break
+    ctx.obligation(bad is None)
+    if bad:
+        ctx.violation("buffering/%s" % bad[0], ctx.where(name), bad[1])
+    # the columns an expression needs: every child position contributes (left, right, arguments, the node's own column)
+    for fn in ("expr::Expr::get_required_fields",):
         h = ctx.anchor_hir(fn)
+        fps = ctx.prog.fns[fn]["params"]
+        f = lambda v: E(field=some(interp.V("Field::" + v)))
+        tree = E(function=some(interp.V("Function::Concat")), field=interp.NONE,
+                 left=some(E(left=some(f("Size")), arithmetic_op=some(interp.V("ArithmeticOp::Add")), right=some(f("Uid")))),
+                 args=some([f("Name"), E(function=some(interp.V("Function::Lower")), left=some(f("Path")))]))
+        okf, why = True, ""
+        try:
+            got = interp.Interp(prog=ctx.prog, max_steps=20000).run(h, {fps[0]["id"]: tree})
+            names = sorted(x.name.split("::")[-1] if isinstance(x, interp.V) else str(x) for x in got)
+            okf = names == ["Name", "Path", "Size", "Uid"]
+            why = "a tree with columns at left.left, left.right, args[0] and args[1].left yields %s" % names
+        except (interp.Undecided, TypeError) as e:
+            okf, why = False, "cannot evaluate: %s" % e
         n += 1
-        ok = render(peel_result(h)) == body
-        ctx.obligation(ok)
-        if not ok:
-            ctx.violation("buffering/%s" % short(fn, 1), ctx.where(fn), "%s must be `%s`; found `%s`" % (short(fn, 1), body, render(peel_result(h))))
-    h = ctx.anchor_hir("query::Query::has_aggregate_column")
-    r = render(peel_result(h))
-    ok = r.startswith("self.fields.iter().any(") and "has_aggregate_function" in " ".join(render(c["body"]) for c in walk_exprs(h) if c["k"] == "Closure")
+        ctx.obligation(okf)
+        if not okf:
+            ctx.violation("buffering/get_required_fields", ctx.where(fn), "get_required_fields must collect the columns of left, right, the arguments and the node itself; %s" % why)
+    fn = "query::Query::get_all_fields"
+    h = ctx.anchor_hir(fn)
+    fps = ctx.prog.fns[fn]["params"]
+    okf, why = True, ""
+    try:
+        q = {"fields": [E(field=some(interp.V("Field::Name"))), E(left=some(E(field=some(interp.V("Field::Size")))), arithmetic_op=some(interp.V("ArithmeticOp::Add")), right=some(E(val=some("1"))))],
+             "ordering_fields": [], "grouping_fields": [], "expr": interp.NONE}
+        got = interp.Interp(prog=ctx.prog, max_steps=20000).run(h, {fps[0]["id"]: q})
+        names = sorted(x.name.split("::")[-1] if isinstance(x, interp.V) else str(x) for x in got)
+        okf = names == ["Name", "Size"]
+        why = "select list (name, size + 1) yields %s" % names
+    except (interp.Undecided, TypeError) as e:
+        okf, why = False, "cannot evaluate: %s" % e
     n += 1
-    ctx.obligation(ok)
-    if not ok:
-        ctx.violation("buffering/has_aggregate_column", ctx.where("query::Query::has_aggregate_column"), "a query aggregates iff any selected expression contains an aggregate function")
-    # recursive predicates over Expr: every child position is visited
-    for fn, kids, leaf in (("expr::Expr::has_aggregate_function", ["left", "right", "args"], "is_aggregate_function"),
-                           ("expr::Expr::get_required_fields", ["left", "right", "args"], "field")):
-        h = ctx.anchor_hir(fn)
-        rec = [render(c) for c in walk_exprs(h) if c["k"] == "MCall" and c["m"] == short(fn, 1)]
-        seen = {k for k in kids if any(k in r_ or (k == "args" and "arg." in r_) for r_ in rec)}
-        n += 1
-        ok = seen == set(kids) and leaf in " ".join(render(x) for x in walk_exprs(h))
-        ctx.obligation(ok)
-        if not ok:
-            ctx.violation("buffering/%s" % short(fn, 1), ctx.where(fn), "%s must recurse into left, right and args and look at the node itself; it visits %s" % (short(fn, 1), sorted(seen)))
-    h = ctx.anchor_hir("query::Query::get_all_fields")
-    r = " ".join(render(x) for x in walk_exprs(h))
-    ok = "self.fields" in r and "get_required_fields" in r
-    n += 1
-    ctx.obligation(ok)
-    if not ok:
-        ctx.violation("buffering/get_all_fields", ctx.where("query::Query::get_all_fields"), "get_all_fields must collect the required fields of every selected expression")
-    ctx.covered("buffering predicates and recursive expression predicates", n, distinct_keys=["is_buffered", "has_ordering", "has_aggregate_column", "is_ordered", "recursion"])
+    ctx.obligation(okf)
+    if not okf:
+        ctx.violation("buffering/get_all_fields", ctx.where(fn), "get_all_fields must collect the required fields of every selected expression; %s" % why)
+    ctx.covered("buffering predicate evaluated on 7 expression shapes x 2 positions x ordered/unordered; required-column collection", n,
+                distinct_keys=list(shapes) + ["get_required_fields", "get_all_fields"], exhaustive=True)
 
 
 def colorize_gate(ctx):
@@ -396,37 +444,67 @@ def lexer_classes(ctx):
     # the context.  The terminating condition of the RawString mode is found (an `if` that breaks the character loop and tests
     # the character against ' ' and ',') and evaluated on every character x flag valuation.
     terms = []
+    nlocs = Locals(nh)
+
+    def char_lits(e, depth=0):
+        out = {y["v"] for y in walk(e) if y["k"] in ("Lit", "PLit") and y.get("lk") == "char"}
+        if depth < 3:
+            for y in walk_exprs(e):
+                if y["k"] == "Path" and y.get("rk") == "Local" and y["res"] in nlocs.defs:
+                    out |= char_lits(nlocs.defs[y["res"]], depth + 1)
+        return out
     for x in walk_exprs(nh):
         if x["k"] == "If" and diverges(x["t"]) and any(y["k"] == "Break" for y in walk_exprs(x["t"])):
-            lits = {y["v"] for y in walk_exprs(x["c"]) if y["k"] == "Lit" and y.get("lk") == "char"}
+            lits = char_lits(x["c"])
             if " " in lits and "," in lits:
                 terms.append(x)
+
+    def tcall(node, recv, args, it, env):
+        # the text read so far is neither a date prefix nor an arithmetic expression
+        if str(node.get("callee", "")).endswith(("looks_like_date", "looks_like_expression")):
+            return (False,)
+        return None
     okt = len(terms) == 1
     badt = None
     if okt:
         cond = terms[0]["c"]
-        ids = {}
-        for y in walk_exprs(cond):
-            if y["k"] == "Path" and y.get("rk") == "Local":
-                ids[y["res"]] = y.get("name")
+        def char_var(e, depth=0):
+            for y in walk_exprs(e):
+                if y["k"] == "Bin" and y["op"] == "==":
+                    l_, r_ = peel(y["l"]), peel(y["r"])
+                    for a_, b_ in ((l_, r_), (r_, l_)):
+                        if a_["k"] == "Path" and a_.get("rk") == "Local" and b_["k"] == "Lit" and b_.get("lk") == "char":
+                            return a_.get("name")
+                if y["k"] == "Match" and any(z["k"] == "PLit" and z.get("lk") == "char" for a in y["arms"] for z in walk(a["pat"])):
+                    sc = peel(y["scrut"])
+                    if sc["k"] == "Path" and sc.get("rk") == "Local":
+                        return sc.get("name")
+            if depth < 3:
+                for y in walk_exprs(e):
+                    if y["k"] == "Path" and y.get("rk") == "Local" and y["res"] in nlocs.defs:
+                        r = char_var(nlocs.defs[y["res"]], depth + 1)
+                        if r:
+                            return r
+            return None
+        cname = char_var(cond) or "c"
         for vals in itertools.product([False, True], repeat=4):
             fl = dict(zip(flags, vals))
             for c in chars:
-                env = {}
-                for i, nm in ids.items():
-                    env[i] = dict(fl, possible_search_root=False, input="ab") if nm == "self" else (c if nm == "c" else interp.Opaque(nm))
+              for words, psr in ((["a", "b"], False), (["a"], True), (["a", "b"], True)):
                 try:
-                    got = interp.Interp(prog=ctx.prog).ev(cond, env)
+                    got = interp.eval_in(nh, cond, {"self": dict(fl, possible_search_root=psr, input=list(words)), cname: c}, call=tcall, prog=ctx.prog)
                 except interp.Undecided as e:
                     badt = ("unreadable", "cannot evaluate the end-of-token condition: %s" % e)
                     break
                 n += 1
-                want = c in " ,(){}" or (c in "=!<>~" and (fl["before_from"] or fl["after_where"]))
+                want = (c in " ,(){}" or (c in "=!<>~" and (fl["before_from"] or fl["after_where"]))) and not (len(words) > 1 and psr)
                 if got != want:
                     badt = ("%s" % ("bracket" if c in "(){}" else "char"),
                             "`%s` %s an unquoted token when %s: brackets of both styles, space, comma and the operator characters of the "
                             "context end a token, nothing else does" % (c, "ends" if got else "does not end", {k: v for k, v in fl.items() if v} or "no context flag is set"))
                     break
+              if badt:
+                  break
             if badt:
                 break
     ctx.obligation(okt and badt is None)
@@ -509,18 +587,47 @@ def parser_phases(ctx):
                 ctx.violation("phases/%s-writers" % fl, ctx.where(name), "the phase flag %s is written by %s" % (fl, sorted(w)))
     # the shorthand window is exactly roots_parsed && !where_parsed
     pc = ctx.anchor_hir("parser::Parser::parse_cond")
-    conds = []
-    for x in walk_exprs(pc):
-        if x["k"] in ("If",) :
-            cs = [render(c) for c in conjuncts(x["c"])]
-            if any("self.roots_parsed" in c for c in cs) or any("self.where_parsed" in c for c in cs):
-                conds.append(cs)
-    ok = len(conds) >= 1 and all("self.roots_parsed" in cs and "!self.where_parsed" in cs for cs in conds)
+    import interp
+    # the shorthand sites: a comparison `.. = true` built from a literal "true" (Expr::op(.., Op::Eq, Expr::value("true")))
+    sites = []
+    for c in walk_exprs(pc):
+        if c["k"] == "Call" and str(c.get("callee", "")).endswith("Expr::op") and len(c["args"]) == 3:
+            if "Op::Eq" in render(c["args"][1]) and any(y["k"] == "Lit" and y.get("v") == "true" and y.get("lk") == "str" for y in walk_exprs(c["args"][2])):
+                sites.append(c)
+    ok = len(sites) >= 1
+    why = "%d shorthand sites" % len(sites)
+    for c in sites:
+        pos_, neg_ = guard_atoms(with_exits(guards_of(pc, c) or []))
+        flagged = [(a, True) for a in pos_ if "roots_parsed" in render(a) or "where_parsed" in render(a)] + \
+                  [(a, False) for a in neg_ if "roots_parsed" in render(a) or "where_parsed" in render(a)]
+        if not flagged:
+            ok, why = False, "the site at %s is not guarded by the phase flags" % c.get("sp")
+            break
+        for rp in (False, True):
+            for wp in (False, True):
+                try:
+                    vals = []
+                    for a, pol in flagged:
+                        ids = {y["res"] for y in walk_exprs(a) if y["k"] == "Path" and y.get("rk") == "Local"}
+                        v = interp.Interp().ev(a, {i_: {"roots_parsed": rp, "where_parsed": wp} for i_ in ids})
+                        vals.append(v == pol)
+                    got = all(vals)
+                except interp.Undecided as e:
+                    ok, why = False, "cannot evaluate the phase condition: %s" % e
+                    break
+                n += 1
+                if got != (rp and not wp):
+                    ok, why = False, "with roots_parsed = %s and where_parsed = %s the shorthand is %sapplied" % (rp, wp, "" if got else "not ")
+                    break
+            if not ok:
+                break
+        if not ok:
+            break
     n += 1
     ctx.obligation(ok)
     if not ok:
         ctx.violation("phases/shorthand-window", ctx.where("parser::Parser::parse_cond"),
-                      "a bare boolean column becomes `column = true` exactly inside WHERE (roots_parsed && !where_parsed); found %s" % conds)
+                      "a bare boolean column becomes `column = true` exactly inside WHERE (roots_parsed && !where_parsed); %s" % why)
     ctx.covered("clause order and phase flags of Parser::parse; shorthand window of parse_cond", n, distinct_keys=order + ["writers", "window"])
 
 
